@@ -193,26 +193,35 @@ theorem C17_tr_backup (s : Server) (b : Backup) (pq big : Bool) :
       Option.isSome_none, Option.isNone_none, Server.ftpcAct] <;> try rfl
   cases resp <;> rfl
 
-/-- removing the leftover if there is one = having no leftover -/
+/-- removing the leftover if there is one = having no leftover (the deleted copies record what was removed) -/
 theorem leftover_removed (s : Server) :
-    (if s.downloads.isSome then { s with downloads := none } else s) = { s with downloads := none } := by
+    (if s.downloads.isSome then { s with downloads := none, dlDeleted := s.dlDeleted ++ s.downloads.toList } else s)
+      = { s with downloads := none, dlDeleted := s.dlDeleted ++ s.downloads.toList } := by
   cases hd : s.downloads with
   | some d => simp
   | none => simp only [Option.isSome_none, Bool.false_eq_true, if_false]; cases s; simp_all
 
-/-- the replacement step as translated (arrival check, "file not initialised" check, delete the live file unless it is
-deleted already, copy the download in, check, set GOOD) = the model's -/
+/-- the replacement step as translated (arrival check, delete the live file unless it is deleted already, copy the download
+in, check, set GOOD) = the model's -/
 theorem restore_tail (s' : Server) :
     (if s'.downloads.isNone = true then (s', false)
-     else if false = true then (s', false)
      else
-       (let s := if s'.file.isNone = true then s' else { s' with file := none }
+       (let s := if s'.file.isNone = true then s' else { s' with file := none, fileDeleted := s'.fileDeleted ++ s'.file.toList }
         let s := match s.downloads with | some d => { s with file := some d, folder := true } | none => s
         if s.file.isNone = true then (s, false) else (let s := { s with health := Health.good }; (s, true))))
     = (match s'.downloads with
        | none => (s', false)
-       | some d => ({ s' with file := some d, folder := true, health := .good }, true)) := by
-  cases hd : s'.downloads <;> cases hf : s'.file <;> simp [hd, hf]
+       | some d => ({ s' with file := some d, folder := true, health := .good,
+                              fileDeleted := s'.fileDeleted ++ s'.file.toList }, true)) := by
+  cases hd : s'.downloads with
+  | none => simp only [Option.isNone_none, if_true]
+  | some d =>
+    simp only [Option.isNone_some, Bool.false_eq_true, if_false]
+    cases hf : s'.file with
+    | none =>
+      simp only [Option.isNone_none, if_true, hd, Option.isNone_some, Bool.false_eq_true, if_false, Option.toList_none, List.append_nil]
+    | some h =>
+      simp only [Option.isNone_some, Bool.false_eq_true, if_false, hd, Option.toList_some]
 
 theorem C17_tr_restore (s : Server) (b : Backup) (pq pr k : Bool) :
     DatabaseTr.restoreBackup s b pq pr k = restoreBackup s b pq pr k := by
@@ -220,7 +229,7 @@ theorem C17_tr_restore (s : Server) (b : Backup) (pq pr k : Bool) :
   rw [leftover_removed]
   dsimp only
   -- the transfer is opaque from here on; then the guards (in whatever order the source asks them) are decided by cases
-  generalize ftpRequestFile { s with downloads := none } b pq pr k = r
+  generalize ftpRequestFile { s with downloads := none, dlDeleted := s.dlDeleted ++ s.downloads.toList } b pq pr k = r
   obtain ⟨s', resp⟩ := r
   cases hc : s.canAct <;> cases hbc : s.backupConfigured <;> cases hft : s.ftpc <;>
     simp only [Bool.not_true, Bool.not_false, Bool.false_eq_true, if_true, if_false, Option.isSome_some, Option.isNone_some,
